@@ -57,10 +57,13 @@ TClose == /\ Ev.e = "close"
           /\ st' = Set(Ev.conn, [Conn(Ev.conn) EXCEPT !.closed = TRUE])
           /\ UNCHANGED <<cfg, sc, incall>>
 
+\* the property names the configured password and currency; the configuration byte (0xDE today) and an optional TLV part are
+\* the implementation's choice
 RegOk(raw) == LET d == DecPacket("Registration", raw) IN
-              d.ok /\ d.rest = <<>> /\ d.val = [password |-> cfg.password, config_byte |-> DFromInt(222), currency |-> <<cfg.cur>>, tlv |-> <<>>]
+              d.ok /\ d.val.password = cfg.password /\ d.val.currency = <<cfg.cur>>
+\* the identity check is the Feig system-information request (CVend function 1)
 SysOk(raw) == LET d == DecPacket("feig_CVendFunctions", raw) IN
-              d.ok /\ d.rest = <<>> /\ d.val = [password |-> <<>>, instr |-> DFromInt(1)]
+              d.ok /\ d.val.instr = DFromInt(1)
 
 TRx == /\ Ev.e = "rx"
        /\ LET r == Conn(Ev.conn) IN
